@@ -36,6 +36,21 @@ CLAIMED = {
  "C06": dict(level="exploration", technique="deterministic simulation with a Byzantine peer: well-formed but unauthorised activities (foreign-host objects, forged Accepts, Undo of others' activities, embedded blocked actors), authority model as oracle, database diff on rejection",
    text="Same engine as C04 with a workload of unauthorised activities: host combinations for Update/Delete, Accept/Follow graphs, Undo actor sets, blocked actors as IRIs or embedded objects. Where the model says unauthorised the request must not be answered 200 and the database must be unchanged apart from the inbox entry; the Blocked callback's argument and its position before the first side effect are checked on the event log.",
    note="One-directional (applied => authorised). Letter-case-only host differences accepted either way.", design="5/C06"),
+ "C11": dict(level="exploration", technique="deterministic simulation with corruption faults: structure-aware mutation of request bodies, of documents returned by the simulated network and of values returned by the simulated Database; recover() around every task, deadlock detection and a step budget as oracle",
+   text="Every scenario of the side-effect corpus is run with one hostile input placed at one of the three seams through which untrusted data reaches the library (HTTP body, Transport.Dereference result, Database return value); the fault is addressed by site, so it replays; a panic unwinding through library frames, a deadlock or exhausting 20000 seam steps is a violation.",
+   note="Not coverage-guided fuzzing of the decoder: that is another technique (stated in DESIGN.md). The decoder is exercised only through these seams.", design="5/C11"),
+ "C15": dict(level="exploration", engine="mapsim", technique="deterministic simulation of astool with Go map iteration order behind a seeded seam (build-time rewrite of every map range): output trees compared across seeds and with the shipped package; seeded extension ontologies must compile and be seed-independent",
+   text="astool is rebuilt with each `for range map` iterating in a seeded permutation of the canonical key order; the four shipped vocabularies are regenerated under many seeds (outputs must be byte-identical to each other and syntax-tree-identical to /repo/streams), an uninstrumented run cross-checks the rewriter, and generated extension vocabularies (multiple parents across vocabularies, mixed ranges, functional/non-functional, natural-language maps, withheld-from lists) must generate identically under several seeds and compile.",
+   note="Only compilation and seed-independence are claimed for extensions; 'satisfies C01/C12/C13' inherits their not-applicable. Map iteration inside dependencies (jennifer, encoding/json) is not instrumented; one range site that mutates its own map stays uncontrolled and is reported.", design="5/C15"),
+ "C17": dict(level="exploration", technique="deterministic simulation: simulated federation with duplicated / concurrent deliveries of one activity under a seeded schedule, unreachable and garbled chain links, single-fault sweep on an eighth of the cases; model of the three forwarding conditions as oracle",
+   text="Activities with reply chains through embedded values and dereferenced documents are delivered 1-3 times to one or two inboxes, sequentially or interleaved; the oracle computes the three conditions from the pre-run snapshot and the fault plan and compares FilterForwarding's input, the forwarding BatchDeliver (count, recipients, payload equality with the received activity) and the number of 'seen' records; under an injected fault a request that still reports success must have forwarded.",
+   note="Recipients accepted as member ids or as their inboxes. Sampling.", design="5/C17"),
+ "C19": dict(level="exploration", engine="txsim", technique="deterministic simulation of the real HttpSigTransport: its goroutines, mutexes, signer calls and HTTP calls scheduled by a seeded scheduler (build-time rewrite of go statements and sync.Mutex calls + testing/synctest), per-request response faults, real httpsig signing and verification",
+   text="One transport value serves 1-3 concurrent BatchDeliver/Deliver/Dereference calls; every goroutine start, mutex acquisition, SignRequest and HttpClient.Do is a scheduling point; response status 100-599, transport errors and body read errors are injected per request; the recording signer parks inside SignRequest so that missing mutual exclusion is observed deterministically; captured requests are verified with real httpsig.",
+   note="Race-freedom is decided at scheduler granularity (critical sections, spawn arguments, channel capacity, completion), not by the Go race detector, which cannot see races through the scheduler's hand-offs. Sampling of schedules.", design="5/C19"),
+ "C20": dict(level="exploration", technique="deterministic simulation: GET readers interleaved with POST writers under a seeded schedule, simulated clock with per-run base, skew, zone and jump faults; body / header oracle against the value and clock reading handed to that very request",
+   text="GetInbox/GetOutbox/handler requests run concurrently with posts that modify the boxes; the served body must be JSON-equal to the value the application handed to that request (de-duplicated / hidden recipients removed), Digest must be the SHA-256 of exactly the bytes written, Date the RFC 7231 rendering of a value the simulated clock returned to that task, 410 for Tombstones, ErrNotFound and nothing written for missing values.",
+   note="Input dimension dominates; weakest fit for the technique (said in DESIGN.md).", design="5/C20"),
  "C16": dict(level="exploration", technique="deterministic simulation: client workload with per-server simulated clock (base, skew, zone) as the time seam; model of the documented client side effects vs database delta, wire and status",
    text="Client Update/Delete/Add/Remove/Like/Block posts run through the real outbox path; the oracle compares member-by-member merge results, Tombstones (incl. the deleted time against the exact clock value the simulated clock handed to that request), target and liked collections in order, Block's absence from the wire, and the 400-and-no-change outcome for missing members.",
    note="Input-dominated; the simulation contributes the clock seam, the alias-free database and the wire. Sampling.", design="5/C16"),
